@@ -118,11 +118,9 @@ theorem decode_encodeOp {T : List OpRow} (h : flagsOk T = true) (op : Op) :
     simp only [encodeOp, decodeOps, decodeOp, flag_roundtrip h1, Option.map_some, bodyOf]
   | phaseShift phi qs b => rfl
   | enableEom n e =>
-    simp only [encodeOp, decodeOps, decodeOp, flag_roundtrip h4, Option.map_some, bodyOf,
-      eom_corr_restore]
+    simp only [encodeOp, decodeOps, decodeOp, flag_roundtrip h4, Option.map_some, bodyOf]
   | modifyEom n e =>
-    simp only [encodeOp, decodeOps, decodeOp, flag_roundtrip h5, Option.map_some, bodyOf,
-      eom_corr_restore]
+    simp only [encodeOp, decodeOps, decodeOp, flag_roundtrip h5, Option.map_some, bodyOf]
   | disableEom n corr =>
     simp only [encodeOp, decodeOps, decodeOp, flag_roundtrip h6, Option.map_some, bodyOf]
   | measure b => rfl
@@ -308,7 +306,7 @@ theorem fnOfName_lookup {names : FnNames} (hn : (names.map (·.2)).Nodup) {f : N
       simp only [beq_self_eq_true] at h
       injection h with h
       subst h
-      simp [List.find?_cons]
+      simp
     · have : (f == g) = false := by simpa using hfg
       rw [this] at h
       have hin : nm ∈ rest.map (·.2) := List.mem_map.mpr ⟨(f, nm), mem_of_lookup h, rfl⟩
